@@ -117,6 +117,42 @@ def real_float_cases(rng):
     return out
 
 
+DEEP_REPL = mutants.UNRELATED + [am.VObj("tuple12", [], []), {"k": "ellipsis"},
+                                  mutants.VDict([mutants.KV({"k": "ellipsis"}, mutants.VInt(1))]),
+                                  mutants.VDict([mutants.KV(mutants.VStr([122, 122]), {"k": "ellipsis"})]),
+                                  mutants.VInf]
+
+
+def deep_cases(chk, nschemas, nprobes):
+    """code -> spec: random declarations nested three levels (custom types, aliases, unions in lists
+    in dicts), substituted with what they generate under the constant tapes and with one-step edits
+    of that (replaced members of every kind incl. placeholders, dropped and extra keys)"""
+    from . import deep
+    rng = chk.rng
+    for s, real in deep.schemas(rng, nschemas, 3):
+        seeds = []
+        for tape in CONST_TAPES:
+            exc, w = valgen.real_fake(real, tape)
+            if exc:
+                continue
+            rep, wa = try_abs(am.a_value, w)
+            if rep and wa[0] not in seeds:
+                seeds.append(wa[0])
+        values = list(seeds[:2])
+        for v in seeds[:2]:
+            edits = mutants.dedup(mutants.mutants(v, DEEP_REPL, mutants.EXTRA_KEYS))
+            values += rng.sample(edits, min(3, len(edits)))
+        for v in values:
+            try:
+                v_real = am.g_value(v)
+                v_abs = am.a_value(v_real)
+            except (am.Unrepresentable, TypeError):
+                continue
+            ev = observe(real, s, v_abs, v_real, nprobes, rng)
+            ev["model"] = True
+            yield ev
+
+
 def run(chk, prop):
     core.setup_repo_path()
     quick = chk.tier == "quick"
@@ -180,6 +216,11 @@ def run(chk, prop):
         ev["id"] = len(events) + 1
         events.append(ev)
         chk.count("real_float_cases")
+    for ev in deep_cases(chk, 300 if quick else 3000, nprobes):
+        ev["id"] = len(events) + 1
+        events.append(ev)
+        chk.count("deep_random_cases")
+        chk.count("deep_refused" if ev["exc"] else "deep_substituted")
     chk.require(len(events) >= 5000, "fewer than 5000 substitutions replayed (%d)" % len(events))
     chk.require(chk.counts.get("substituted", 0) >= 1500 and chk.counts.get("refused", 0) >= 1000,
                 "outcome mix too thin: %r" % chk.counts)
